@@ -408,3 +408,26 @@ def c08(ctx):
                          "class = (command kind and mode, descriptor count, result)",
                     trace_module="Trace_C08", sigfn=V.default_sig,
                     assumptions=["TLC/SANY and the JVM", "Wide/Crc modules", "restriction flags are not compared when delivery is not restricted; cw_index and protocol_version have no getter"])
+
+
+# ---------------------------------------------------------------- C09
+
+def c09_sig(e, reason):
+    return V.default_sig(e, reason)
+
+
+@prop("C09", "Trace_C09", c09_sig)
+def c09(ctx):
+    V.mc(ctx, "MC_C08", workers=8)
+    summ = V.gen_traces(ctx, shards=12)
+    V.validate(ctx, "Trace_C09", summ, c09_sig, par=12, timeout=3000)
+    return V.finish(ctx, "model_checking",
+                    rule="MC: structural consistency of Scte35!SectionOf (shared with C08). B3: histories on real signals, created through the API (splice_null / time_signal / splice_insert, 0..2 "
+                         "segmentation descriptors) or decoded from generated canonical sections (incl. foreign descriptors), with 6..24 setter calls (every public setter of the signal, command and "
+                         "descriptor, flags set and cleared, in-range and out-of-range values) interleaved with UpdateData. Each setter: matching getter = argument truncated to the field width and Data() "
+                         "unchanged. Each encoding: bytes = SectionOf(abstract section assembled from all getters read just before), idempotent, Data() updated, decoding the bytes reports the same values, "
+                         "a decoded canonical section re-encodes to itself. class = (set, field) or (encode, command type, #descriptors, decoded source)",
+                    trace_module="Trace_C09", sigfn=c09_sig,
+                    assumptions=["TLC/SANY and the JVM", "Scte35/Wide/Crc modules", "header fields without getter (table id, ssi, private, protocol_version, encryption_algorithm, cw_index) are taken from "
+                                 "creation defaults or from the decoded source", "pts_adjustment is compared only when the command carries a time",
+                                 "getters are compared for out-of-range arguments only where the API documents truncation (tier, segmentation duration, command PTS)"])
